@@ -13,7 +13,7 @@ use scratchstack_aws_signature::canonical::canonicalize_uri_path;
 use serde::{Deserialize, Serialize};
 use serde_json::json;
 
-pub const RULE: &str = "enumerated completely: every byte 0-255 in every spelling (literal, %HH, %hh, %Hh, %hH) in three segment contexts, both modes; every two-character escape %xy over all 128x128 ASCII pairs at segment end and mid-segment plus the truncated forms; every path of 0-4 (quick) / 0-5 (thorough) segments over the alphabet {'', '.', '..', '%2e', '%2E%2e', '.%2E', 'a', '%41', 'a%2Fb', '~-_.', '*', '%zz'} with and without trailing slash, both modes. generated: random paths over all bytes / Unicode / deep '..' chains, and pairs of spellings of one decoded path. Oracle: crate output == reference normal form, or both fail with InvalidURIPath/400 (failure sets must coincide exactly); idempotence c(c(p)) = c(p); two spellings of one decoded path agree; output alphabet is unreserved + '/' + upper-case %HH; a sample is confirmed end to end (reference-signed request with that path is accepted / refused as the model says). Only '/a/.'-style trailing dot segments are left unspecified (RFC 3986 vs SDK trailing slash). Non-trivial: path has an escape, a dot segment (any spelling), an empty segment, a byte outside the unreserved set, or is invalid; distinct by (path, mode).";
+pub const RULE: &str = "enumerated completely: every byte 0-255 in every spelling (literal, %HH, %hh, %Hh, %hH) in three segment contexts, both modes; every two-character escape %xy over all 128x128 ASCII pairs at segment end and mid-segment plus the truncated forms; every path of 0-4 (quick) / 0-5 (thorough) segments over the alphabet {'', '.', '..', '%2e', '%2E%2e', '.%2E', 'a', '%41', 'a%2Fb', '~-_.', '*', '%zz'} with and without trailing slash, both modes. generated: random paths over all bytes / Unicode / deep '..' chains, and pairs of spellings of one decoded path. Oracle: crate output == reference normal form, or both fail with InvalidURIPath/400 (failure sets must coincide exactly); idempotence c(c(p)) = c(p); two spellings of one decoded path agree; output alphabet is unreserved + '/' + upper-case %HH; a sample is confirmed end to end (reference-signed request with that path is accepted / refused as the model says), also under every combination of {folding option, form POST with or without body, query carrier}: the canonical path may depend on (path, mode) only. Only '/a/.'-style trailing dot segments are left unspecified (RFC 3986 vs SDK trailing slash). Non-trivial: path has an escape, a dot segment (any spelling), an empty segment, a byte outside the unreserved set, or is invalid; distinct by (path, mode).";
 
 #[derive(Clone, Debug, Serialize, Deserialize, PartialEq, Eq)]
 pub struct PathCase {
